@@ -148,6 +148,14 @@ CHECKS = {
             "OrcCode bytes - mnemonics, registers, memory operands, immediates; branch targets as instruction indices.",
             "GNU as/objdump 2.40 are the reference; NEON/MIPS not compared (no cross assembler)",
             "DESIGN.md 4/C12", True),
+    "C11": ("xasm+xprog", "exploration",
+            "bounded exhaustive enumeration of the flag-vector lattice x programs; ISA level of every distinct emitted instruction form derived from GNU as -march gating; every 64-bit subset's code run against emulation",
+            "Every program of levels L1, L4, L5 (thorough: + L2, L3) compiled under every subset of each x86 target's feature bits x {64,32-bit} "
+            "(thorough: x frame pointer x short jumps): every instruction form in the listing must belong to an ISA level granted by the flag vector "
+            "(level = first -march=...+nosse+<level> under which GNU as accepts the form); every 64-bit subset that compiles is executed and "
+            "compared with emulation over n, alignment and value tables.",
+            "GNU as feature gating is the ISA reference; 32-bit code is classified, not run",
+            "DESIGN.md 4/C11", True),
 }
 
 NOT_YET = {}
